@@ -13,10 +13,14 @@
 // What it does per listed file: (1) verifrt.P("file:line") before every statement
 // of every block, case clause and comm clause (never inside the clause list of a
 // switch/select body); (2) selectors sync.Mutex/RWMutex/Once/WaitGroup and
-// io.Pipe/PipeReader/PipeWriter -> verifrt equivalents; (3) `go f()` ->
-// verifrt.Go(func(){ f() }) for argument-less calls, anything else is a loud
-// error; (4) whitelisted map ranges -> range verifrt.Ordered(site, m).
-// It fails loudly (exit 2) when a listed file or whitelisted range is missing.
+// io.Pipe/PipeReader/PipeWriter -> verifrt equivalents; (3) `go f(a, b)` ->
+// t1, t2 := a, b; verifrt.Go(func(){ f(t1, t2) }) (arguments are evaluated by the
+// spawner, as the language says); (4) whitelisted map ranges -> range
+// verifrt.Ordered(site, m).
+// A tree that has moved on must not break the checks: a listed file that no longer exists is
+// skipped with a note, and when a whitelisted range expression is no longer found the package
+// is type-checked (go/types, source importer) and EVERY range over a map in the listed files
+// of that package becomes an owned choice instead.
 package main
 
 import (
@@ -27,9 +31,11 @@ import (
 	"fmt"
 	"go/ast"
 	"go/format"
+	"go/importer"
 	"go/parser"
 	"go/printer"
 	"go/token"
+	"go/types"
 	"os"
 	"path/filepath"
 	"strings"
@@ -97,9 +103,20 @@ func main() {
 		src := filepath.Join(absRepo, rel)
 		b, err := os.ReadFile(src)
 		if err != nil {
-			die("listed file missing: %v", err)
+			fmt.Fprintf(os.Stderr, "instr: note: listed file %s does not exist in this tree; skipped\n", rel)
+			delete(orders, rel)
+			continue
 		}
-		nb, n, err := rewrite(rel, b, orders[rel])
+		nb, n, err := rewrite(rel, b, orders[rel], nil)
+		if me, ok := err.(missingRange); ok {
+			fmt.Fprintf(os.Stderr, "instr: note: %s: %v; owning every map range of the file by type instead\n", rel, me)
+			at, terr := mapRangesByType(absRepo, rel)
+			if terr != nil {
+				fmt.Fprintf(os.Stderr, "instr: note: %s: type check failed (%v); map ranges of this file are not owned\n", rel, terr)
+				at = map[string]bool{}
+			}
+			nb, n, err = rewrite(rel, b, nil, at)
+		}
 		if err != nil {
 			die("%s: %v", rel, err)
 		}
@@ -112,7 +129,7 @@ func main() {
 		delete(orders, rel)
 	}
 	for rel := range orders {
-		die("order rule for %s, which is not a listed file", rel)
+		fmt.Fprintf(os.Stderr, "instr: note: order rule for %s, which is not a listed file; ignored\n", rel)
 	}
 	ob, _ := json.MarshalIndent(map[string]any{"Replace": replace}, "", " ")
 	if err := os.WriteFile(filepath.Join(absOut, "overlay.json"), ob, 0o644); err != nil {
@@ -127,6 +144,7 @@ type rw struct {
 	points int
 	usedRT bool
 	orders map[string]bool // expr -> seen
+	at     map[string]bool // "line:col" of map ranges found by type (fallback mode)
 	err    error
 	tmpN   int
 }
@@ -137,7 +155,67 @@ func exprString(fset *token.FileSet, e ast.Expr) string {
 	return b.String()
 }
 
-func rewrite(rel string, src []byte, orders []string) ([]byte, int, error) {
+// missingRange is the error for a whitelisted range expression that the file no longer contains.
+type missingRange string
+
+func (m missingRange) Error() string {
+	return fmt.Sprintf("whitelisted map range %q not found", string(m))
+}
+
+// mapRangesByType type-checks the package of rel and returns the positions ("line:col") of all
+// range statements over a map in that file.
+func mapRangesByType(absRepo, rel string) (map[string]bool, error) {
+	dir := filepath.Dir(filepath.Join(absRepo, rel))
+	old, _ := os.Getwd()
+	if err := os.Chdir(dir); err != nil {
+		return nil, err
+	}
+	defer os.Chdir(old)
+	fset := token.NewFileSet()
+	pkgs, err := parser.ParseDir(fset, dir, func(fi os.FileInfo) bool { return !strings.HasSuffix(fi.Name(), "_test.go") }, 0)
+	if err != nil {
+		return nil, err
+	}
+	out := map[string]bool{}
+	for name, p := range pkgs {
+		var files []*ast.File
+		var target *ast.File
+		for fn, f := range p.Files {
+			files = append(files, f)
+			if filepath.Base(fn) == filepath.Base(rel) {
+				target = f
+			}
+		}
+		if target == nil {
+			continue
+		}
+		info := &types.Info{Types: map[ast.Expr]types.TypeAndValue{}}
+		var firstErr error
+		conf := types.Config{Importer: importer.ForCompiler(fset, "source", nil), Error: func(err error) {
+			if firstErr == nil {
+				firstErr = err
+			}
+		}}
+		_, _ = conf.Check(name, fset, files, info)
+		if firstErr != nil {
+			return nil, firstErr
+		}
+		ast.Inspect(target, func(n ast.Node) bool {
+			if r, ok := n.(*ast.RangeStmt); ok {
+				if tv, ok := info.Types[r.X]; ok {
+					if _, ok := tv.Type.Underlying().(*types.Map); ok {
+						p := fset.Position(r.Pos())
+						out[fmt.Sprintf("%d:%d", p.Line, p.Column)] = true
+					}
+				}
+			}
+			return true
+		})
+	}
+	return out, nil
+}
+
+func rewrite(rel string, src []byte, orders []string, at map[string]bool) ([]byte, int, error) {
 	fset := token.NewFileSet()
 	// comments are dropped (go/printer can misplace them around inserted nodes); a file that
 	// carries compiler directives in comments must therefore not be instrumented silently
@@ -148,7 +226,7 @@ func rewrite(rel string, src []byte, orders []string) ([]byte, int, error) {
 	if err != nil {
 		return nil, 0, err
 	}
-	r := &rw{fset: fset, rel: rel, orders: map[string]bool{}}
+	r := &rw{fset: fset, rel: rel, orders: map[string]bool{}, at: at}
 	for _, o := range orders {
 		r.orders[o] = false
 	}
@@ -207,7 +285,7 @@ func rewrite(rel string, src []byte, orders []string) ([]byte, int, error) {
 	}
 	for o, seen := range r.orders {
 		if !seen {
-			return nil, 0, fmt.Errorf("whitelisted map range %q not found", o)
+			return nil, 0, missingRange(o)
 		}
 	}
 	// imports: add verifrt, drop sync / io when nothing else uses them
@@ -359,25 +437,47 @@ func (r *rw) list(in []ast.Stmt) []ast.Stmt {
 	for _, s := range in {
 		switch x := s.(type) {
 		case *ast.GoStmt:
-			if len(x.Call.Args) != 0 {
-				r.err = fmt.Errorf("%s: go statement with arguments is not supported by the instrumenter", r.fset.Position(x.Pos()))
-				out = append(out, s)
-				continue
-			}
 			r.usedRT = true
+			out = append(out, r.point(s.Pos()))
 			var fn ast.Expr
-			if fl, ok := x.Call.Fun.(*ast.FuncLit); ok {
+			if fl, ok := x.Call.Fun.(*ast.FuncLit); ok && len(x.Call.Args) == 0 {
 				fn = fl
 			} else {
-				fn = &ast.FuncLit{Type: &ast.FuncType{Params: &ast.FieldList{}}, Body: &ast.BlockStmt{List: []ast.Stmt{&ast.ExprStmt{X: x.Call}}}}
+				// the spawner evaluates the arguments; literals and nil/true/false stay in place
+				// (a temporary would fix the type of an untyped constant)
+				call := &ast.CallExpr{Fun: x.Call.Fun, Ellipsis: x.Call.Ellipsis}
+				var lhs, rhs []ast.Expr
+				for _, a := range x.Call.Args {
+					inline := false
+					switch v := a.(type) {
+					case *ast.BasicLit:
+						inline = true
+					case *ast.Ident:
+						inline = v.Name == "nil" || v.Name == "true" || v.Name == "false"
+					}
+					if inline {
+						call.Args = append(call.Args, a)
+						continue
+					}
+					r.tmpN++
+					t := fmt.Sprintf("verifArg%d", r.tmpN)
+					lhs = append(lhs, ast.NewIdent(t))
+					rhs = append(rhs, a)
+					call.Args = append(call.Args, ast.NewIdent(t))
+				}
+				if len(lhs) > 0 {
+					out = append(out, &ast.AssignStmt{Lhs: lhs, Tok: token.DEFINE, Rhs: rhs})
+				}
+				fn = &ast.FuncLit{Type: &ast.FuncType{Params: &ast.FieldList{}}, Body: &ast.BlockStmt{List: []ast.Stmt{&ast.ExprStmt{X: call}}}}
 			}
-			out = append(out, r.point(s.Pos()))
 			out = append(out, &ast.ExprStmt{X: &ast.CallExpr{Fun: &ast.SelectorExpr{X: ast.NewIdent("verifrt"), Sel: ast.NewIdent("Go")}, Args: []ast.Expr{fn}}})
 			continue
 		case *ast.RangeStmt:
 			es := exprString(r.fset, x.X)
 			if _, ok := r.orders[es]; ok {
 				r.orders[es] = true
+				r.rangeRewrite(x, es)
+			} else if p := r.fset.Position(x.Pos()); r.at[fmt.Sprintf("%d:%d", p.Line, p.Column)] && x.Tok == token.DEFINE {
 				r.rangeRewrite(x, es)
 			}
 		}
